@@ -162,13 +162,15 @@ type c05job struct {
 	stepIDs []string // per step, "" = no id
 	mkeys   []string // literal matrix keys (rows + include)
 	mopen   bool     // some part of the matrix is expression-defined: any key allowed
+	hasCfg  bool     // row cfg with mapping values {a: ...}
+	cfgOpen bool     // one of the values of cfg (in the row or in an include element) is given by an expression
 	hasMat  bool
 	matrixY []string // yaml lines of the strategy section (indented by 4)
 }
 
 func TestC05(t *testing.T) {
 	hx.Main(t, "C05", func(r *hx.Run) {
-		r.Rule = "workflow shapes: 1-5 jobs with a random needs DAG (scalar/list form, mixed case; jobs written in random order, so needed jobs may come later in the file), per job 0-5 steps with ids placed at random (ids may coincide up to case across jobs), declared job outputs, a matrix (rows, include-only keys, exclude, or a row / include / whole matrix given by an expression), workflow_call and/or workflow_dispatch inputs, workflow_call secrets (declared / section absent) and outputs. One reference probe per line at positions where the context is available: steps.<id>[.outputs.x|.outcome|.conclusion] in run/env/if/with/name/working-directory of steps (run, shell and working-directory in any key order), in job outputs and environment.url; needs.<job>[.result|.outputs.<n>] (also inside nested sequences of matrix rows, after elements of mixed / unknown type); matrix.<key>; inputs.<n>; secrets.<n>; jobs.<job>.outputs.<n>; defined and undefined names, dot and ['x'] form, random case. Oracle: scope model built with the shape. Non-trivial = shape with >= 2 jobs or >= 2 steps and at least one defined and one undefined probe; distinct = YAML text."
+		r.Rule = "workflow shapes: 1-5 jobs with a random needs DAG (scalar/list form, mixed case; jobs written in random order, so needed jobs may come later in the file), per job 0-5 steps with ids placed at random (ids may coincide up to case across jobs), declared job outputs, a matrix (rows, include-only keys, exclude, or a row / include / whole matrix given by an expression), workflow_call and/or workflow_dispatch inputs, workflow_call secrets (declared / section absent) and outputs. One reference probe per line at positions where the context is available: steps.<id>[.outputs.x|.outcome|.conclusion] in run/env/if/with/name/working-directory of steps (run, shell and working-directory in any key order), in job outputs and environment.url; needs.<job>[.result|.outputs.<n>] (also inside nested sequences of matrix rows, after elements of mixed / unknown type); matrix.<key> and matrix.<key>.<property> for a row of mappings (all values literal / one value or an include assignment given by an expression); inputs.<n>; secrets.<n>; jobs.<job>.outputs.<n>; defined and undefined names, dot and ['x'] form, random case. Oracle: scope model built with the shape. Non-trivial = shape with >= 2 jobs or >= 2 steps and at least one defined and one undefined probe; distinct = YAML text."
 		r.Assumptions = []string{"probes are only placed where GitHub's availability table allows the context", "nested matrix value typing and jobs.<id>.result are not asserted", "inputs probes only when at least one input is declared"}
 		r.Check(t, "shapes", hx.N(2500, 60000), func(rt *rapid.T) {
 			c, nj, maxSteps := genC05Shape(rt, nil)
@@ -291,9 +293,32 @@ func genC05Shape(rt *rapid.T, extra func(g *c05gen)) (*c05Case, int, int) {
 				}
 				if g.b("row3") {
 					j.mkeys = append(j.mkeys, "cfg")
-					j.matrixY = append(j.matrixY, "  cfg: [{a: 1}, {a: 2}]")
+					j.hasCfg = true
+					switch g.i("cfgform", 0, 4) {
+					case 0: // a value of unknown shape after values of known shape
+						j.cfgOpen = true
+						j.matrixY = append(j.matrixY, "  cfg: [{a: 1}, {a: 2}, '${{ fromJSON(github.event.client_payload.c) }}']")
+					case 1:
+						j.cfgOpen = true
+						j.matrixY = append(j.matrixY, "  cfg:", "    - ${{ fromJSON(github.event.client_payload.c) }}", "    - a: 1")
+					default:
+						j.matrixY = append(j.matrixY, "  cfg: [{a: 1}, {a: 2}]")
+					}
 				}
-				switch g.i("inc", 0, 6) {
+				cfgInclude := j.hasCfg && g.i("cfginc", 0, 2) == 0
+				incForm := g.i("inc", 0, 6)
+				if cfgInclude {
+					incForm = 7
+				}
+				switch incForm {
+				case 7: // an include element gives the key of a literal row by an expression
+					j.cfgOpen = true
+					if g.b("cfgincextra") {
+						j.mkeys = append(j.mkeys, "extra")
+						j.matrixY = append(j.matrixY, "  include:", "    - os: linux", "      extra: yes", "    - cfg: ${{ fromJSON(github.event.client_payload.c) }}")
+					} else {
+						j.matrixY = append(j.matrixY, "  include:", "    - cfg: ${{ fromJSON(github.event.client_payload.c) }}", "      os: linux")
+					}
 				case 5:
 					// an element of unknown shape first, then elements whose shape is known
 					j.mopen = true
@@ -626,6 +651,16 @@ func (g *c05gen) jobLevelProbe(jobs []*c05job, i int, inputs, secrets []string, 
 		}
 		return g.ref("needs", "nojob", ".result"), "needs/unknown-job", "nojob", false
 	case 2, 3: // matrix
+		if j.hasCfg && g.i("mnested", 0, 3) == 0 {
+			switch {
+			case g.b("cfgknown"):
+				return g.ref("matrix", "cfg", "."+g.spell("a")), "matrix/nested-property-of-literal-values", "a", true
+			case j.cfgOpen:
+				return g.ref("matrix", "cfg", ".zextra"), "matrix/nested-property-of-key-with-expression-value", "zextra", true
+			case !j.mopen:
+				return g.ref("matrix", "cfg", ".zextra"), "matrix/nested-property-undefined", "zextra", false
+			}
+		}
 		if len(j.mkeys) > 0 && g.b("mdef") {
 			k := j.mkeys[g.i("mk", 0, len(j.mkeys)-1)]
 			return g.ref("matrix", k, ""), "matrix/declared-key", k, true
